@@ -3,11 +3,15 @@
 Files are produced by an independent writer (mc/refs/sphere.py) and decoded by the real
 read_signal(..., force_as="sph") from a path and from a stream.  Enumerated completely:
 
-  lattice       coding x channels 1..7 x header layout x sample counts on both sides of every
-                16384-byte read boundary x requested dtype x access path
+  lattice       coding x channels 1..7 x sample counts on both sides of each of the first four
+                16384-byte read boundaries (frame sizes 1..7, 2..14 bytes; files of 1..5 reads) x
+                header (field layouts; sizes on, next to and between multiples of 1024) x requested
+                dtype x access path
+  header_sizes  field layout x EVERY header size 1024..3100 (thorough ..5200) and sizes around
+                4096, 5120, 8192, 16384 ... x coding x channels x access path on 1300-sample files
   g711_tables   all 256 codes of both tables (independent ITU-T expansion, mc/refs/g711.py)
   truncation    every byte length of the data section of small files (mono and multi-channel)
-                plus lengths around the read boundary of two-read files
+                plus lengths around each of the three read boundaries of four-read files
   header_faults every prefix shorter than 1024 bytes, wrong magic, header size < 1024
 
 The shorten-compressed path (copy_shortened_samples) belongs to C13 and is not touched here.
@@ -28,11 +32,15 @@ LEVEL = "exploration"
 ASSUMPTIONS = [
     "sample values are an alphabet: one seeded generic int16 sequence per file (first entries "
     "forced to 32767, -32768, 0, -1, 1) for PCM, seeded codes for G.711 plus, exhaustively, all "
-    "256 codes of each table; the structure (coding, channels, counts, header layout, dtype, "
-    "access path, truncation length) is what is enumerated",
+    "256 codes of each table; the structure (coding, channels, counts, header layout and size, "
+    "dtype, access path, truncation length) is what is enumerated",
     "the reference SPHERE writer mc/refs/sphere.py (cross-checked against libsndfile's NIST "
     "reader in its selftest) and the G.711 expansion mc/refs/g711.py (from the Recommendation's "
     "segment/interval definition, cross-checked against the encoder's decision values) are trusted",
+    "a declared header size that is not a multiple of 1024 is well-formed: the property says 'any "
+    "header size' (>= 1024), the size line is what locates the samples, and libsndfile's NIST "
+    "reader decodes the reference writer's 1025/1500/2047/2049/4000-byte headers identically "
+    "(selftest); a size smaller than the layout's own fields is not a header and is skipped",
     "streams are io.BytesIO / regular files, i.e. read(n) returns n bytes unless at end of file",
     "sample_count = 0 and PCM with a requested 1-byte dtype are outside the property and skipped",
 ]
@@ -63,6 +71,8 @@ def _codes(seed, n):
 def _stored(coding, channels, count, seed):
     n = count * channels
     v = _pcm_values(seed, n) if coding.startswith("pcm") else _codes(seed, n)
+    if not coding.startswith("pcm") and bytes(v[:4].tolist()) == b"ajkg":
+        raise core.HarnessError("seeded codes start with the shorten magic; that is C13's domain")
     return v if channels == 1 else v.reshape(count, channels)
 
 
@@ -129,13 +139,24 @@ def _base_tags(coding, channels):
     return dict(coding=coding, mono=(channels == 1), channels_divide_16384=(READ % fs == 0))
 
 
+def _hdr_tags(size):
+    return dict(header_multiple_of_1024=(size % 1024 == 0))
+
+
+def _read_bucket(byte_offset):
+    """which 16384-byte read of the data section a byte belongs to: 1, 2 or '3+'"""
+    k = byte_offset // READ + 1
+    return k if k < 3 else "3+"
+
+
 def _compare(got, want, coding, channels, tags, header_count=None):
-    """-> (what, detail) or None.  Classification is structural:
+    """-> (what, detail[, extra tags]) or None.  Classification is structural:
     partial_frame_lost  = everything before the first 16384-byte read boundary is right, the first
                           wrong/missing sample is at or after the frame that straddles it, and the
                           frame size does not divide 16384
     truncated_mono_tail = (truncation only) mono, the result has the header's sample count instead
-                          of the number of samples present, the samples present are right"""
+                          of the number of samples present, the samples present are right
+    truncated_tail      = the same for a multi-channel file"""
     if not isinstance(got, np.ndarray):
         return "type", "returned %r" % type(got).__name__
     fs = channels * sph.bytes_per_sample(coding)
@@ -143,9 +164,9 @@ def _compare(got, want, coding, channels, tags, header_count=None):
     n = min(len(g), len(w))
     neq = np.flatnonzero(g[:n] != w[:n])
     first = int(neq[0]) if len(neq) else (n if len(g) != len(w) else None)
-    if (header_count is not None and channels == 1 and got.shape == (header_count,)
+    if (header_count is not None and got.shape[:1] == (header_count,)
             and want.shape[0] < header_count and first is not None and first >= len(w)):
-        return ("truncated_mono_tail",
+        return ("truncated_mono_tail" if channels == 1 else "truncated_tail",
                 "%d samples present, header promises %d: returned shape %r (the tail beyond the "
                 "data is whatever np.empty held), expected shape %r" % (
                     len(w), header_count, got.shape, want.shape))
@@ -158,11 +179,13 @@ def _compare(got, want, coding, channels, tags, header_count=None):
         else:
             what = "samples"
         at = None if first is None else (first // channels, first % channels)
+        extra = {} if first is None else dict(
+            first_bad_in_read=_read_bucket(first * sph.bytes_per_sample(coding)))
         return what, "shape %r, expected %r; first wrong (sample, channel) = %r: got %r expected %r " \
             "[frame of %d bytes, first read boundary inside sample %d]" % (
                 got.shape, want.shape, at,
                 g[first:first + 3].tolist() if first is not None else None,
-                w[first:first + 3].tolist() if first is not None else None, fs, READ // fs)
+                w[first:first + 3].tolist() if first is not None else None, fs, READ // fs), extra
     if got.dtype != want.dtype:
         return "dtype", "dtype %s, expected %s" % (got.dtype, want.dtype)
     return None
@@ -174,49 +197,72 @@ def _compare(got, want, coding, channels, tags, header_count=None):
 THOROUGH = False
 
 
+def _kmax():
+    return 6 if THOROUGH else 4
+
+
 def _counts(coding, channels):
-    q = READ // (channels * sph.bytes_per_sample(coding))
-    return [1, q - 1, q, q + 1, 2 * q + 1, 3 * q] + ([2, 2 * q - 1, 2 * q, 3 * q + 1, 5 * q + 2] if THOROUGH else [])
+    """sample counts on both sides of each of the first _kmax() read boundaries: with f = frame
+    bytes and q = 16384 // f, the counts k*q-1, k*q, k*q+1 and, where f does not divide 16384,
+    also floor(k*16384/f) - 1, .., + 1 (the last whole frame of read k and the frame that
+    straddles into read k+1), for k = 1..4 (thorough: 6); plus 1 and 2"""
+    fs = channels * sph.bytes_per_sample(coding)
+    q = READ // fs
+    out = {1, 2}
+    for k in range(1, _kmax() + 1):
+        for base in (k * q, (k * READ) // fs):
+            out.update((base - 1, base, base + 1))
+    if THOROUGH:
+        out.add(9 * q + 2)
+    return sorted(out)
+
+
+def _nreads(coding, channels, count):
+    return -(-count * channels * sph.bytes_per_sample(coding) // READ)
+
+
+def _extra(c):
+    return c[2] if len(c) > 2 else {}
 
 
 def _lattice_case(case, seed, tmpdir, cache=None):
     coding, ch, variant = case["coding"], case["channels"], case["header"]
     count, dtype, access = case["count"], case["dtype"], case["access"]
+    cache = {} if cache is None else cache
     key = (coding, ch, count)
-    if cache is not None and key in cache:
-        stored, body = cache[key]
-    else:
+    if key not in cache:
         stored = _stored(coding, ch, count, seed)
-        body = sph.encode_samples(coding, stored)
-        if cache is not None:
-            cache[key] = (stored, body)
-    want = _expected(coding, stored, dtype)
+        cache[key] = (stored, sph.encode_samples(coding, stored))
+    stored, body = cache[key]
+    if key + (dtype,) not in cache:
+        cache[key + (dtype,)] = _expected(coding, stored, dtype)
+    want = cache[key + (dtype,)]
     if want is None:
         return None, "skipped"
-    data = sph.header_variant(variant, coding, ch, count) + body
-    r = _read(data, access, dtype, tmpdir)
-    tags = dict(_base_tags(coding, ch), sub="lattice")
+    head = sph.header_variant(variant, coding, ch, count)
+    r = _read(head + body, access, dtype, tmpdir)
+    tags = dict(_base_tags(coding, ch), sub="lattice", **_hdr_tags(len(head)))
     if r[0] == "exc":
         return core.violation(dict(tags, what="exception", exc=type(r[1]).__name__),
                               "well-formed file raised %s: %s" % (type(r[1]).__name__, _clean(r[1])),
                               dict(case, kind="lattice")), "exc"
     c = _compare(r[1], want, coding, ch, tags)
     if c is not None:
-        return core.violation(dict(tags, what=c[0]),
-                              "%s %dch %d samples header=%s dtype=%s %s: %s%s" % (
-                                  coding, ch, count, variant, dtype, access, c[1],
-                                  "; warnings %r" % r[2] if r[2] else ""),
+        return core.violation(dict(tags, what=c[0], **_extra(c)),
+                              "%s %dch %d samples (%d reads) header=%s (%d bytes) dtype=%s %s: %s%s" % (
+                                  coding, ch, count, _nreads(coding, ch, count), variant, len(head),
+                                  dtype, access, c[1], "; warnings %r" % r[2] if r[2] else ""),
                               dict(case, kind="lattice")), c[0]
     return None, "ok"
 
 
 def _lattice(pt, seed):
-    coding, ch, variant = pt
+    coding, ch, count = pt
     viol, obs, evals, nontriv, skipped = [], set(), 0, 0, 0
     cache = {}
-    q = READ // (ch * sph.bytes_per_sample(coding))
+    reads = _nreads(coding, ch, count)
     with _Tmp() as tmp:
-        for count in _counts(coding, ch):
+        for variant in sph.HEADER_VARIANTS:
             for dtype in DTYPES:
                 for access in ACCESS:
                     case = dict(coding=coding, channels=ch, header=variant, count=count,
@@ -226,14 +272,88 @@ def _lattice(pt, seed):
                         skipped += 1
                         continue
                     evals += 1
-                    nontriv += int(count > q)         # the decode spans more than one read
-                    obs.add((o, count > q, dtype))
+                    nontriv += int(reads > 1)         # the decode spans more than one read
+                    obs.add((o, reads, dtype))
                     if v is not None:
                         viol.append(v)
     return core.result(viol, evals=evals, nontrivial_count=nontriv, skipped=skipped,
                        obs=sorted(map(str, obs)),
-                       sample=dict(coding=coding, channels=ch, header=variant,
-                                   counts=_counts(coding, ch), inner="x 5 dtypes x {stream,path}"))
+                       sample=dict(coding=coding, channels=ch, count=count, reads=reads,
+                                   inner="x %d headers x 5 dtypes x {stream,path}" % len(sph.HEADER_VARIANTS)))
+
+
+# ------------------------------------------------------------------ every header size
+
+
+HS_COUNT = 1300          # 1300 .. 7800 data bytes: more than a 1024-byte block in every file
+
+
+def _hs_channels():
+    return (1, 2, 3, 7) if THOROUGH else (1, 3)
+
+
+def _hs_dense():
+    """every header size from 1024 to here (across the 2048 and 3072 block borders; thorough: also
+    4096 and 5120)"""
+    return 5200 if THOROUGH else 3100
+
+
+def _header_sizes():
+    """every size 1024.._hs_dense(), then sizes on and next to further multiples of 1024 and some
+    in between, up to 99999"""
+    out = list(range(1024, _hs_dense() + 1))
+    for m in (3072, 4096, 5120, 8192, 16384, 32768):
+        out += [m - 1, m, m + 1]
+    out += [2560, 4000, 10000, 17408, 20000, 65536, 99999]
+    return sorted(set(out))
+
+
+def _hs_case(case, seed, tmpdir, cache=None):
+    layout, size, coding, ch, access = (case[k] for k in ("layout", "size", "coding", "channels", "access"))
+    cache = {} if cache is None else cache
+    key = (coding, ch)
+    if key not in cache:
+        stored = _stored(coding, ch, HS_COUNT, seed)
+        cache[key] = (sph.encode_samples(coding, stored), _expected(coding, stored, None))
+    body, want = cache[key]
+    if size < sph.layout_min_size(layout, coding, ch, HS_COUNT):
+        return None, "skipped"             # the fields do not fit: not a header of that size
+    head = sph.header_layout(layout, size, coding, ch, HS_COUNT)
+    r = _read(head + body, access, None, tmpdir)
+    tags = dict(sub="header_sizes", layout=layout, **_hdr_tags(size))
+    case = dict(case, kind="header_sizes")
+    where = "%s %dch %d samples, %s header of %d bytes, %s" % (coding, ch, HS_COUNT, layout, size, access)
+    if r[0] == "exc":
+        return core.violation(dict(tags, what="exception", exc=type(r[1]).__name__),
+                              "%s: raised %s: %s" % (where, type(r[1]).__name__, _clean(r[1])), case), "exc"
+    c = _compare(r[1], want, coding, ch, tags)
+    if c is not None:
+        return core.violation(dict(tags, what=c[0]), "%s: %s%s" % (
+            where, c[1], "; warnings %r" % r[2] if r[2] else ""), case), c[0]
+    return None, "ok"
+
+
+def _hs(pt, seed):
+    layout, coding, ch, sizes = pt
+    viol, obs, evals, skipped, nontriv = [], set(), 0, 0, 0
+    cache = {}
+    with _Tmp() as tmp:
+        for size in sizes:
+            for access in ACCESS:
+                v, o = _hs_case(dict(layout=layout, size=size, coding=coding, channels=ch,
+                                     access=access), seed, tmp, cache)
+                if o == "skipped":
+                    skipped += 1
+                    continue
+                evals += 1
+                nontriv += int(size > 1024)           # there is header beyond the first block
+                obs.add((o, size % 1024 == 0, size > 1024))
+                if v is not None:
+                    viol.append(v)
+    return core.result(viol, evals=evals, nontrivial_count=nontriv, skipped=skipped,
+                       obs=sorted(map(str, obs)),
+                       sample=dict(layout=layout, coding=coding, channels=ch,
+                                   sizes="%d..%d (%d values)" % (sizes[0], sizes[-1], len(sizes))))
 
 
 # ------------------------------------------------------------------ all 256 codes
@@ -285,11 +405,15 @@ def _g711(pt, seed):
 # ------------------------------------------------------------------ truncation
 
 
-def _trunc_case(case, seed, tmpdir):
+def _trunc_case(case, seed, tmpdir, cache=None):
     coding, ch, variant = case["coding"], case["channels"], case["header"]
     count, nbytes, access, dtype = case["count"], case["data_bytes"], case["access"], case["dtype"]
-    stored = _stored(coding, ch, count, seed)
-    full = sph.header_variant(variant, coding, ch, count) + sph.encode_samples(coding, stored)
+    cache = {} if cache is None else cache
+    key = (coding, ch, variant, count)
+    if key not in cache:
+        st = _stored(coding, ch, count, seed)
+        cache[key] = (st, sph.header_variant(variant, coding, ch, count) + sph.encode_samples(coding, st))
+    stored, full = cache[key]
     hdr = len(full) - count * ch * sph.bytes_per_sample(coding)
     fs = ch * sph.bytes_per_sample(coding)
     if not 0 <= nbytes < count * fs:
@@ -297,7 +421,7 @@ def _trunc_case(case, seed, tmpdir):
     present = nbytes // fs
     want = _expected(coding, stored[:present], dtype)
     r = _read(full[:hdr + nbytes], access, dtype, tmpdir)
-    tags = dict(_base_tags(coding, ch), sub="truncation")
+    tags = dict(_base_tags(coding, ch), sub="truncation", **_hdr_tags(hdr))
     case = dict(case, kind="truncation")
     where = "%s %dch header=%s promises %d samples, data section cut to %d of %d bytes (%d whole " \
         "samples) %s" % (coding, ch, variant, count, nbytes, count * fs, present, access)
@@ -310,8 +434,9 @@ def _trunc_case(case, seed, tmpdir):
                                    "%s: no warning issued" % where, case))
     c = _compare(r[1], want, coding, ch, tags, header_count=count)
     if c is not None:
-        what = c[0] if c[0] in ("truncated_mono_tail", "partial_frame_lost") else "truncated_" + c[0]
-        viol.append(core.violation(dict(tags, what=what), "%s: %s" % (where, c[1]), case))
+        what = c[0] if c[0] in ("truncated_mono_tail", "truncated_tail", "partial_frame_lost") \
+            else "truncated_" + c[0]
+        viol.append(core.violation(dict(tags, what=what, **_extra(c)), "%s: %s" % (where, c[1]), case))
     return viol, ("ok" if not viol else "viol")
 
 
@@ -321,15 +446,16 @@ def _trunc(pt, seed):
     if lengths == "all":
         lengths = list(range(count * fs))
     viol, obs, evals = [], set(), 0
+    cache = {}
     with _Tmp() as tmp:
         for nbytes in lengths:
             for access in ACCESS:
                 for dtype in (None,) if coding.startswith("pcm") else (None, "uint8"):
                     v, o = _trunc_case(dict(coding=coding, channels=ch, header=variant, count=count,
-                                            data_bytes=nbytes, access=access, dtype=dtype), seed, tmp)
+                                            data_bytes=nbytes, access=access, dtype=dtype), seed, tmp, cache)
                     evals += 1
                     viol += v
-                    obs.add((o, nbytes // fs == 0, nbytes % fs == 0))
+                    obs.add((o, nbytes // fs == 0, nbytes % fs == 0, min(nbytes // READ, 3)))
     return core.result(viol, evals=evals, nontrivial_count=evals, obs=sorted(map(str, obs)),
                        sample=dict(coding=coding, channels=ch, header=variant, count=count,
                                    data_bytes=lengths if len(lengths) < 12 else "0..%d" % (count * fs - 1)))
@@ -393,8 +519,8 @@ def _faults(pt, seed):
 
 
 def _fault_points():
-    cases = [dict(fault="control", size=1024), dict(fault="control", size=2048)]
-    for size in (1024, 2048):
+    cases = [dict(fault="control", size=n) for n in (1024, 1025, 1500, 2048, 4000)]
+    for size in (1024, 1500, 2048):
         for length in range(0, 1024):
             cases.append(dict(fault="prefix", size=size, length=length))
     magic = b"NIST_1A"
@@ -422,6 +548,9 @@ def _replay(case, seed):
         if k == "lattice":
             v, _ = _lattice_case(c, seed, tmp)
             return core.result([v] if v is not None else [])
+        if k == "header_sizes":
+            v, _ = _hs_case(c, seed, tmp)
+            return core.result([v] if v is not None else [])
         if k == "g711":
             return core.result(_g711_case(c, tmp))
         if k == "truncation":
@@ -431,37 +560,66 @@ def _replay(case, seed):
     raise core.HarnessError("cannot replay %r" % (case,))
 
 
+def _boundary_lengths(fs, count, kmax):
+    """data-section lengths (bytes) around each of the first kmax read boundaries: the boundary
+    itself +-1, one frame before it, and +-1 around the ends of the last whole frame before it,
+    of the frame that straddles it and of the frame after"""
+    out = {1, count * fs - 1}
+    for k in range(1, kmax + 1):
+        b = k * READ
+        m = b // fs
+        out.update((b - fs, b - 1, b, b + 1, m * fs - 1, m * fs, m * fs + 1,
+                    (m + 1) * fs - 1, (m + 1) * fs, (m + 1) * fs + 1, (m + 2) * fs))
+    return sorted(x for x in out if 0 <= x < count * fs)
+
+
 def subchecks(tier, seed):
     global THOROUGH
     thorough = THOROUGH = tier == "thorough"
     chans = list(range(1, 8)) + (list(range(8, 17)) if thorough else [])
-    lat = [(c, ch, v) for c in sph.CODINGS for ch in chans for v in sph.HEADER_VARIANTS]
+    lat = [(c, ch, n) for c in sph.CODINGS for ch in chans for n in _counts(c, ch)]
+    count_axis = "1, 2, k*q-1..k*q+1 and floor(k*16384/frame)-1..+1 for k=1..%d, q=16384//frame bytes%s" % (
+        _kmax(), ", 9q+2" if thorough else "")
+    sizes = _header_sizes()
+    step = 90
+    hs = [(lay, c, ch, sizes[i:i + step]) for lay in sph.LAYOUTS for c in sph.CODINGS for ch in _hs_channels()
+          for i in range(0, len(sizes), step)]
     g = [(c, ch, o) for c in ("ulaw", "alaw") for ch in (1, 2, 4) for o in ("up", "down")]
     tr = []
+    small_headers = ("h1024", "h1500", "h2048") + (("extra2048", "h2049") if thorough else ())
     for c in sph.CODINGS:
         for ch, count in ((1, 9), (2, 5), (3, 5)) + (((4, 4), (5, 3), (6, 3), (7, 3)) if thorough else ()):
-            for v in ("h1024", "h2048") + (("extra2048",) if thorough else ()):
+            for v in small_headers:
                 tr.append((c, ch, v, count, "all"))
-        # two-read files cut around the read boundary (every channel count; the frame that
-        # straddles the boundary is whole in the file but split between two reads)
+        # four-read files cut around each of the three read boundaries (every channel count; the
+        # frame that straddles a boundary is whole in the file but split between two reads)
         for ch in chans:
             fs = ch * sph.bytes_per_sample(c)
-            q = READ // fs
-            count = 2 * q + 1
-            lens = sorted(set(x for x in (
-                1, READ - fs, READ - 1, READ, READ + 1, (q + 1) * fs - 1, (q + 1) * fs, (q + 1) * fs + 1,
-                (q + 2) * fs, 2 * READ - 1, 2 * READ, count * fs - 1) if 0 <= x < count * fs))
-            tr.append((c, ch, "h1024", count, lens))
+            count = 3 * (READ // fs) + 3
+            tr.append((c, ch, "h1024", count, _boundary_lengths(fs, count, 3)))
     return [
         core.SubCheck(
             "lattice", lat, lambda p: _lattice(p, seed),
             "own-writer files decoded by read_signal(force_as='sph'); per point (coding, channels, "
-            "header layout) the inner loop is sample count in {1,q-1,q,q+1,2q+1,3q%s}, q=16384//frame "
-            "bytes, x requested dtype {None,int16,uint8,int8,float32} x {stream,path}; exact "
-            "values, shape (n,) / (n,channels) and dtype; non-trivial = more than one 16384-byte read" % (
-                ",2,2q-1,2q,3q+1,5q+2" if thorough else ""),
-            axes=dict(coding=list(sph.CODINGS), channels=chans, header=list(sph.HEADER_VARIANTS),
-                      count="1,q-1,q,q+1,2q+1,3q" + (",2,2q-1,2q,3q+1,5q+2" if thorough else ""), dtype=list(DTYPES), access=list(ACCESS)),
+            "sample count in {%s}) the inner loop is header {%s} x requested dtype "
+            "{None,int16,uint8,int8,float32} x {stream,path} (PCM with a 1-byte dtype is outside the "
+            "property: skipped); exact values, shape (n,) / (n,channels) and dtype; non-trivial = "
+            "more than one 16384-byte read (the files span 1..%d reads)" % (
+                count_axis, ",".join(sph.HEADER_VARIANTS), _kmax() + 1),
+            axes=dict(coding=list(sph.CODINGS), channels=chans, count=count_axis,
+                      header=list(sph.HEADER_VARIANTS), dtype=list(DTYPES), access=list(ACCESS)),
+            replay=lambda case: _replay(case, seed)),
+        core.SubCheck(
+            "header_sizes", hs, lambda p: _hs(p, seed),
+            "field layout {plain, extra optional fields, mandatory fields reversed, all mandatory "
+            "fields beyond byte 1024} x every declared header size 1024..%d and %d sizes on, next to "
+            "and between further multiples of 1024 up to 99999 (sizes smaller than the layout's fields "
+            "are not headers: skipped) x coding x channels %r x {stream,path} on %d-sample files: "
+            "exact samples and shape; non-trivial = header larger than the first 1024-byte block" % (
+                _hs_dense(), len([x for x in sizes if x > _hs_dense()]), list(_hs_channels()), HS_COUNT),
+            axes=dict(layout=list(sph.LAYOUTS),
+                      size="1024..%d + %r" % (_hs_dense(), [x for x in sizes if x > _hs_dense()]),
+                      coding=list(sph.CODINGS), channels=list(_hs_channels()), access=list(ACCESS)),
             replay=lambda case: _replay(case, seed)),
         core.SubCheck(
             "g711_tables", g, lambda p: _g711(p, seed),
@@ -474,17 +632,19 @@ def subchecks(tier, seed):
         core.SubCheck(
             "truncation", tr, lambda p: _trunc(p, seed),
             "every byte length 0..full-1 of the data section of small files (mono 9 samples, 2ch and "
-            "3ch 5 samples, thorough also 4..7ch; 4 codings; 1024/2048 headers) and lengths around the read boundary of "
-            "(2q+1)-sample files for every channel count: a warning is issued and exactly the whole "
-            "samples present come back",
-            axes=dict(coding=list(sph.CODINGS), channels_small=[1, 2, 3], channels_two_reads=chans,
-                      header=["h1024", "h2048"], data_bytes="every length", access=list(ACCESS)),
+            "3ch 5 samples, thorough also 4..7ch; 4 codings; 1024/1500/2048-byte headers) and lengths "
+            "around each of the three read boundaries (boundary +-1, ends of the frames before, across "
+            "and after it +-1) of (3q+3)-sample files for every channel count: a warning is issued and "
+            "exactly the whole samples present come back",
+            axes=dict(coding=list(sph.CODINGS), channels_small=[1, 2, 3], channels_four_reads=chans,
+                      header=list(small_headers), data_bytes="every length / around 16384, 32768, 49152",
+                      access=list(ACCESS)),
             replay=lambda case: _replay(case, seed), kind="fault_enumeration"),
         core.SubCheck(
             "header_faults", _fault_points(), lambda p: _faults(p, seed),
-            "every prefix of 0..1023 bytes of a valid 1024- and 2048-byte-header file, 26 wrong "
-            "magics, 7 header-size fields below 1024, 7 foreign containers => IOError; the intact "
-            "files are positive controls",
+            "every prefix of 0..1023 bytes of a valid 1024-, 1500- and 2048-byte-header file, 26 wrong "
+            "magics, 7 header-size fields below 1024, 7 foreign containers => IOError; intact files "
+            "with 1024/1025/1500/2048/4000-byte headers are positive controls",
             axes=dict(fault=["prefix 0..1023", "magic", "size<1024", "foreign"], access=list(ACCESS)),
             replay=lambda case: _replay(case, seed), kind="fault_enumeration"),
     ]
